@@ -116,6 +116,25 @@ func main() {
 		for _, s := range sents {
 			emit("sentence", s)
 		}
+		// random derivations (deeper than the minimal witnesses) rendered with variant lexemes whose TEXT contains comment
+		// markers, separators, blanks and escaped quotes: the tokens are the same kinds, so acceptance must not change
+		for i := 0; i < *n/4+50; i++ {
+			toks := g.RandomSentence(rng.Intn, 3+rng.Intn(6))
+			r := run(g, "derivation", -1, -1, toks)
+			r.Text = gram.RenderVariant(toks, rng.Intn(7))
+			r.Lexed = gram.LexKinds(r.Text)
+			r.Accepted, r.Trace = parseWithProbes(g, r.Text)
+			r.SemAcc = parseSemantic(r.Text)
+			enc.Encode(r)
+		}
+		for _, s := range sents {
+			r := run(g, "sentence-variant", -1, -1, s)
+			r.Text = gram.RenderVariant(s, 1)
+			r.Lexed = gram.LexKinds(r.Text)
+			r.Accepted, r.Trace = parseWithProbes(g, r.Text)
+			r.SemAcc = parseSemantic(r.Text)
+			enc.Encode(r)
+		}
 		for i := 0; i < *n; i++ {
 			s := append([]int{}, sents[rng.Intn(len(sents))]...)
 			switch rng.Intn(6) {
@@ -191,6 +210,9 @@ func main() {
 		}
 		for _, k := range keys {
 			pool = append(pool, gram.Render(ws[k]))
+		}
+		for _, st := range stmtCorpus { // whole valid statement followed by extra tokens: rejected by the end-of-input check
+			pool = append(pool, st+" ;", st+" ?x", st+" "+st)
 		}
 		type stRes struct {
 			Kind           string   `json:"kind"`
@@ -497,6 +519,8 @@ func parseDump(p *grammar.Parser, txt string) (out string) {
 }
 
 var stmtCorpus = []string{
+	`insert data into ?g {/u<alice> "tag"@[] "#bql"^^type:text . /room<12#b> "see#also"@[] "a;b // c"^^type:text};`,
+	`select ?s from ?a where {?s "see#also"@[] ?o} having ?o = "C# primer"^^type:text;`,
 	`create graph ?a;`,
 	`create graph ?a, ?b;`,
 	`drop graph ?a, ?b;`,
